@@ -22,6 +22,14 @@ CHECKS["C02"] = dict(level="exploration", ref="DESIGN.md §5 C02",
    technique="generated histories of data and record-level operations (commit, discard, reopen in r/r+/a, merge, second handle, older-prefix open, refused calls); invariant after every step: sha256/size of every committed container and manifest unchanged + directory-listing whitelist; commit snapshots re-opened later against the reference tree",
    text="Generated search with an invariant checked after every single operation (successful or refused): byte digests of everything committed so far and no unexpected files; every commit's file set is later copied out and must open read-only showing the state recorded at that commit. Bounded by history length; sampling.",
    note=TB + "; what counts as committed is decided by the harness from its own API calls")
+CHECKS["C18"] = dict(level="exploration", ref="DESIGN.md §5 C18",
+   technique="exhaustive enumeration of all ordered pairs of small snapshot trees + Hypothesis for larger trees and an on-disk slice; oracles: flattened-set difference (both directions), apply-oracle interpreting nodes() in order, lookup-vs-listing agreement",
+   text="Exhaustive for all pairs of trees with <=3 (quick) / <=4 (thorough) entries; generated search for larger trees incl. a slice realised on disk through dir_hashsums and annotate. The oracle is independent (flatten + replay of the edit script), two-directional (nothing missing, nothing extra).",
+   note=TB)
+CHECKS["C19"] = dict(level="exploration", ref="DESIGN.md §5 C19",
+   technique="Hypothesis-generated abstract directory trees realised twice on disk; result compared with an injective model-side encoding (hashlib digests, normalised link targets) plus metamorphic single edits, chunked-stream differential against hashlib, and enumeration of outside-leading symlink shapes",
+   text="Generated search; equal trees must hash equal and equal the model encoding (so different trees necessarily differ), every single edit must change the result, every outside-leading link shape must raise ValueError. Link chains/cycles and special files are not asserted.",
+   note=TB + "; /dev/shm tmpfs semantics for symlinks and mtimes")
 NOT_YET = {}
 def main():
     props = [json.loads(l) for l in open(os.path.join(HERE, "properties.jsonl"))]
